@@ -1282,7 +1282,7 @@ fn rank_mod_p(m: &Mat, p: u64) -> usize {
             let f = mul(a[i][col], inv);
             for j in col..n {
                 let v = mul(f, a[rank][j]);
-                a[i][j] = (a[i][j] + p - v) % p;
+                a[i][j] = ((a[i][j] as u128 + p as u128 - v as u128) % p as u128) as u64;
             }
         }
         rank += 1;
